@@ -408,9 +408,16 @@ func (c *Ctx) RuleResolve() *Result {
 			})
 		}
 	}
-	// (r3) generate: one Run call fed by string(phi(stdin bytes, file bytes))
-	if cmd := c.Commands().ByName["generate"]; cmd != nil {
-		for _, entry := range c.EntryRoots(cmd) {
+	// (r3) every call of the assembler in package cmd (generate, and the copy used by update and compare)
+	// is fed by string(phi(stdin bytes, file bytes)) and nothing else
+	{
+		var cmdFns []*ssa.Function
+		for _, fn := range c.P.RepoFns {
+			if load.ShortPkg(load.FnPkgPath(fn)) == "cmd" {
+				cmdFns = append(cmdFns, fn)
+			}
+		}
+		for _, entry := range cmdFns {
 			allInstrs(entry, func(in ssa.Instruction) {
 				call, ok := in.(*ssa.Call)
 				if !ok {
